@@ -14,7 +14,7 @@ package catchup
 // Every observation is appended to ONE global event trace per case (under a mutex, at the moment the mock is entered /
 // before it returns, so the trace order respects causality):
 //   fetch r | retry r                         first / later request for round r reached a peer
-//   fetched r b c br cr cm au                 peer answered with block b (round br) and cert c (round cr);
+//   fetched r b c br cr cm au [hm]            peer answered with block b (round br) and cert c (round cr);
 //                                             cm = oracle "payset matches header", au = oracle "cert authenticates block"
 //   fetcherr r kind                           peer answered with an error / undecodable bytes / the request was cancelled
 //   contents r b v                            block.ContentsMatchHeader() was evaluated in fetchAndWrite (hook in the overlay
@@ -45,6 +45,7 @@ import (
 	"io"
 	"os"
 	"path/filepath"
+	"reflect"
 	"runtime"
 	"sort"
 	"strconv"
@@ -115,20 +116,22 @@ type verifC30Resp struct {
 }
 
 type verifC30World struct {
-	tr      *verifC30Trace
-	base    basics.Round
-	n       int
-	ss      uint64
-	script  map[basics.Round][]verifC30Resp
-	good    map[basics.Round]bookkeeping.Block
-	fork    map[basics.Round]bookkeeping.Block
-	tamp    map[basics.Round][]bookkeeping.Block
-	goodDig map[basics.Round]crypto.Digest // certified header digest of round r
-	blkID   map[crypto.Digest]string       // hash of the full block encoding -> id
-	blkCM   map[string]bool                // id -> oracle "contents match header" (by construction)
-	certID  map[crypto.Digest]string
-	reqMu   sync.Mutex
-	reqs    map[basics.Round]int
+	tr       *verifC30Trace
+	base     basics.Round
+	n        int
+	ss       uint64
+	script   map[basics.Round][]verifC30Resp
+	good     map[basics.Round]bookkeeping.Block
+	fork     map[basics.Round]bookkeeping.Block
+	tamp     map[basics.Round][]bookkeeping.Block
+	goodDig  map[basics.Round]crypto.Digest // certified header digest of round r
+	genuine  map[basics.Round]crypto.Digest // hash of the encoding of the genuine certificate of round r
+	blkID    map[crypto.Digest]string       // hash of the full block encoding -> id
+	blkCM    map[string]bool                // id -> oracle "contents match header" (by construction)
+	certID   map[crypto.Digest]string
+	certMode bool
+	reqMu    sync.Mutex
+	reqs     map[basics.Round]int
 }
 
 // a case normally takes a few milliseconds; a case that does not return within the watchdog is reported as HANG
@@ -207,6 +210,26 @@ func (w *verifC30World) mkCert(r basics.Round, dig crypto.Digest) agreement.Cert
 	return c
 }
 
+// setVotes fills cert.Votes (the element type is unexported in package agreement) with n votes whose senders are
+// derived from (round, salt).  A certificate is GENUINE for round r iff it is byte-identical to mkGenuine(r): the votes
+// stand for "the signatures that agreement / the BlockAuthenticator verified".
+func verifC30SetVotes(c *agreement.Certificate, n int, salt byte) {
+	votes := reflect.ValueOf(c).Elem().FieldByName("Votes")
+	votes.Set(reflect.MakeSlice(votes.Type(), n, n))
+	for i := 0; i < n; i++ {
+		a := verifC30Addr(uint64(c.Round)*64 + uint64(i) + 1)
+		a[30] = salt
+		votes.Index(i).FieldByName("Sender").Set(reflect.ValueOf(a))
+	}
+}
+
+// mkGenuine: the certificate the network agreed on for round r (certified digest, 3 votes).
+func (w *verifC30World) mkGenuine(r basics.Round) agreement.Certificate {
+	c := w.mkCert(r, w.goodDig[r])
+	verifC30SetVotes(&c, 3, 0)
+	return c
+}
+
 func (w *verifC30World) regCert(id string, c agreement.Certificate) {
 	w.certID[crypto.Hash(protocol.Encode(&c))] = id
 }
@@ -250,7 +273,12 @@ func (w *verifC30World) build() {
 			w.tamp[r] = append(w.tamp[r], tb)
 			w.regBlock(fmt.Sprintf("T%d.%d", r, j), tb, false)
 		}
-		w.regCert(fmt.Sprintf("C%d", r), w.mkCert(r, g.Digest()))
+		w.regCert(fmt.Sprintf("C%d", r), w.mkGenuine(r))
+		w.genuine[r] = crypto.Hash(protocol.Encode(ptrC30(w.mkGenuine(r))))
+		w.regCert(fmt.Sprintf("CX%d", r), w.mkCert(r, g.Digest())) // forged: same Round and Proposal, no votes
+		cv := w.mkCert(r, g.Digest())
+		verifC30SetVotes(&cv, 3, 9)
+		w.regCert(fmt.Sprintf("CV%d", r), cv) // forged: same Round and Proposal, votes nobody cast
 		w.regCert(fmt.Sprintf("CF%d", r), w.mkCert(r, f.Digest()))
 		w.regCert(fmt.Sprintf("CZ%d", r), w.mkCert(r, crypto.Digest{}))
 		w.regCert(fmt.Sprintf("CN%d", r), w.mkCert(r+1, g.Digest())) // right digest, certificate of another round
@@ -278,8 +306,11 @@ func (w *verifC30World) idOfCert(c *agreement.Certificate) string {
 // "the votes certify digest(G_r)".  Like the real one it looks at the header only.
 func (w *verifC30World) oracleAuth(b *bookkeeping.Block, c *agreement.Certificate) bool {
 	d, ok := w.goodDig[b.Round()]
-	return ok && c.Round == b.Round() && c.Proposal.BlockDigest == b.Digest() && b.Digest() == d
+	return ok && c.Round == b.Round() && c.Proposal.BlockDigest == b.Digest() && b.Digest() == d &&
+		crypto.Hash(protocol.Encode(c)) == w.genuine[b.Round()] // the votes are the ones that were cast
 }
+
+func ptrC30[T any](v T) *T { return &v }
 
 func (w *verifC30World) oracleCM(b *bookkeeping.Block) bool {
 	return w.blkCM[w.idOfBlock(b)] // unknown id -> false
@@ -342,7 +373,11 @@ func (p *verifC30Peer) Request(ctx context.Context, tag protocol.Tag, topics net
 		}
 	}
 	pair := func(b bookkeeping.Block, c agreement.Certificate) (*network.Response, error) {
-		w.tr.add("fetched %d %s %s %d %d %s %s", r, w.idOfBlock(&b), w.idOfCert(&c), b.Round(), c.Round, verifC30B(w.oracleCM(&b)), verifC30B(w.oracleAuth(&b, &c)))
+		hm := ""
+		if w.certMode { // syncCert cases: does the block hash to the digest of the certificate agreement holds?
+			hm = " " + verifC30B(b.Digest() == w.goodDig[r])
+		}
+		w.tr.add("fetched %d %s %s %d %d %s %s%s", r, w.idOfBlock(&b), w.idOfCert(&c), b.Round(), c.Round, verifC30B(w.oracleCM(&b)), verifC30B(w.oracleAuth(&b, &c)), hm)
 		return &network.Response{Topics: network.Topics{
 			network.MakeTopic(rpcs.BlockDataKey, protocol.Encode(&b)),
 			network.MakeTopic(rpcs.CertDataKey, protocol.Encode(&c))}}, nil
@@ -352,7 +387,7 @@ func (p *verifC30Peer) Request(ctx context.Context, tag protocol.Tag, topics net
 		return resp, err
 	}
 	G, F := w.good[r], w.fork[r]
-	C, CF, CZ := w.mkCert(r, G.Digest()), w.mkCert(r, F.Digest()), w.mkCert(r, crypto.Digest{})
+	C, CF, CZ := w.mkGenuine(r), w.mkCert(r, F.Digest()), w.mkCert(r, crypto.Digest{})
 	kind, arg := resp.kind, 0
 	if j := strings.IndexByte(kind, ':'); j >= 0 {
 		arg, _ = strconv.Atoi(kind[j+1:])
@@ -367,6 +402,12 @@ func (p *verifC30Peer) Request(ctx context.Context, tag protocol.Tag, topics net
 		return pair(G, CF)
 	case "zerocert":
 		return pair(G, CZ)
+	case "forged": // the right block with a certificate that only CLAIMS the same round and proposal
+		return pair(G, w.mkCert(r, G.Digest()))
+	case "forgedvotes":
+		cv := w.mkCert(r, G.Digest())
+		verifC30SetVotes(&cv, 3, 9)
+		return pair(G, cv)
 	case "fork":
 		return pair(F, CF)
 	case "forkgood":
@@ -374,9 +415,9 @@ func (p *verifC30Peer) Request(ctx context.Context, tag protocol.Tag, topics net
 	case "tampfork":
 		return pair(w.tamp[r][arg%len(w.tamp[r])], CF)
 	case "prevblk":
-		return pair(w.good[r-1], w.mkCert(r-1, w.good[r-1].Digest()))
+		return pair(w.good[r-1], w.mkGenuine(r-1))
 	case "nextblk":
-		return pair(w.good[r+1], w.mkCert(r+1, w.good[r+1].Digest()))
+		return pair(w.good[r+1], w.mkGenuine(r+1))
 	case "nextcert":
 		return pair(G, w.mkCert(r+1, G.Digest()))
 	case "prevcert":
@@ -586,7 +627,7 @@ func verifC30Exec(op string, log logging.Logger) string {
 		return "bad-op"
 	}
 	w := &verifC30World{tr: &verifC30Trace{}, script: map[basics.Round][]verifC30Resp{}, good: map[basics.Round]bookkeeping.Block{},
-		fork: map[basics.Round]bookkeeping.Block{}, tamp: map[basics.Round][]bookkeeping.Block{}, goodDig: map[basics.Round]crypto.Digest{},
+		fork: map[basics.Round]bookkeeping.Block{}, tamp: map[basics.Round][]bookkeeping.Block{}, goodDig: map[basics.Round]crypto.Digest{}, genuine: map[basics.Round]crypto.Digest{},
 		blkID: map[crypto.Digest]string{}, blkCM: map[string]bool{}, certID: map[crypto.Digest]string{}, reqs: map[basics.Round]int{}}
 	var lb, par uint64 = 2, 4
 	mode, npeers := 0, 2
@@ -663,7 +704,7 @@ func verifC30Exec(op string, log logging.Logger) string {
 				return
 			}
 			w.jitter(3, xr, i)
-			_ = led.add(w.good[xr], w.mkCert(xr, w.good[xr].Digest()), true)
+			_ = led.add(w.good[xr], w.mkGenuine(xr), true)
 		}(xr, i)
 	}
 
@@ -700,6 +741,7 @@ func verifC30Exec(op string, log logging.Logger) string {
 func verifC30ExecCert(w *verifC30World, npeers int, log logging.Logger) string {
 	r := w.base + 1
 	w.n = 1
+	w.certMode = true
 	led := &verifC30Ledger{w: w, last: w.base, hdrs: map[basics.Round]bookkeeping.Block{w.base: w.good[w.base]}, chans: map[basics.Round]chan struct{}{}}
 	net := &verifC30Net{}
 	for i := 0; i < npeers; i++ {
@@ -709,7 +751,12 @@ func verifC30ExecCert(w *verifC30World, npeers int, log logging.Logger) string {
 	s.testStart()
 	done := make(chan string, 1)
 	go func() {
-		done <- vh.Catch(func() string { s.fetchRound(w.mkCert(r, w.good[r].Digest()), nil); return "returned" })
+		avv := agreement.MakeAsyncVoteVerifier(nil)
+		defer avv.Quit()
+		done <- vh.Catch(func() string {
+			s.syncCert(&PendingUnmatchedCertificate{Cert: w.mkGenuine(r), VoteVerifier: avv})
+			return "returned"
+		})
 	}()
 	var exit string
 	select {
@@ -730,7 +777,7 @@ func verifC30ExecCert(w *verifC30World, npeers int, log logging.Logger) string {
 }
 
 // ---------------------------------------------------------------------------------------------- generator
-var verifC30BadPairs = []string{"tampered:0", "tampered:1", "tampered:2", "tampered:3", "badcert", "zerocert", "fork", "forkgood", "tampfork:1"}
+var verifC30BadPairs = []string{"tampered:0", "tampered:1", "tampered:2", "tampered:3", "badcert", "zerocert", "fork", "forkgood", "tampfork:1", "forged", "forgedvotes"}
 var verifC30FetchFails = []string{"prevblk", "nextblk", "nextcert", "prevcert", "garbage", "nodata", "errmsg", "neterr", "noblock"}
 
 func verifC30Case(base, n int, lb, par uint64, mode, peers int, ss uint64, ext []int, script map[int][]string) string {
@@ -820,6 +867,11 @@ func verifC30Generate() []string {
 	certKinds := append(append([]string{}, verifC30BadPairs...), "prevblk", "nextblk", "nextcert", "garbage", "errmsg", "noblock", "neterr")
 	for i, k := range certKinds {
 		ops = append(ops, fmt.Sprintf("cert base=%d peers=%d ss=%d %d=%s.%d,good.0", 1+i, 1+i%3, rng.U64()%100000, 2+i, k, i%2))
+	}
+	// the right block paired with a forged certificate that merely claims the trusted round and proposal (sticky: every
+	// peer serves it): what must be written is agreement's verified certificate, never the peer's
+	for i, sc := range []string{"forged.0", "forgedvotes.0", "tampered:1.0,forged.0", "badcert.0,forgedvotes.1", "fork.0,forged.0", "nextblk.0,forgedvotes.0,good.0"} {
+		ops = append(ops, fmt.Sprintf("cert base=%d peers=%d ss=%d %d=%s", 3+i, 1+i%2, rng.U64()%100000, 4+i, sc))
 	}
 	for i := 0; i < vh.Budget(25, 400); i++ {
 		base := rng.Intn(50)
